@@ -102,6 +102,11 @@ CURATED = [
      "Wait: 3s", ""],
     ["Base: s", "Block: B", "    Alarm: In > 2 L/h", "        Mark: X", "    Watch: In > 2 L/h", "        End block", "Mark: after",
      "Wait: 3s", ""],
+    ["Base: s", "Block: B", "    Watch: Block Time > 0.3s", "        End block", "    Alarm: Block Time > 0.3s", "        Mark: X",
+     "Mark: after", "Wait: 3s", ""],
+    ["Block: B", "    Watch: Block Time > 0.3s", "        End block", "    Alarm: Block Time > 0.3s", "        Mark: X", "Mark: after", ""],
+    ["Base: s", "Block: B", "    Alarm: Block Time > 0.2s", "        Mark: X", "        Wait: 0.2s", "    Watch: Block Time > 0.4s",
+     "        End block", "Mark: after", "Wait: 2s", ""],
     ["Base: s", "Pause: 0.3s", "Mark: p", "Hold: 0.2s", "Mark: h", "Block: B", "    0.2 Mark: inb", "    End block", ""],
 ]
 
